@@ -23,6 +23,9 @@ type nmfResult struct {
 	what      string
 }
 
+// markT: a named integer type, as applications define for their packet marks and ids
+type markT uint32
+
 func callNMF(name string, dataKind int, v *big.Int, masks []int64, maskKind int) (res nmfResult) {
 	res.unchanged = true
 	defer func() {
@@ -66,6 +69,9 @@ func callNMF(name string, dataKind int, v *big.Int, masks []int64, maskKind int)
 		res.unchanged = bytes.Equal(d, before)
 	case 7: // uint16
 		d := uint16(v.Uint64())
+		do(func() (*of.MatchField, error) { return nmfMask(name, d, masks, maskKind) })
+	case 9: // a named integer type
+		d := markT(uint32(v.Uint64()))
 		do(func() (*of.MatchField, error) { return nmfMask(name, d, masks, maskKind) })
 	case 8: // a nil *big.Int: not a number at all
 		var d *big.Int
@@ -123,7 +129,7 @@ func runC17(seed uint64, tier, dir, replay string) error {
 			eff.SetUint64(v.Uint64())
 		case 1:
 			eff.SetInt64(v.Int64())
-		case 2:
+		case 2, 9:
 			eff.SetUint64(uint64(uint32(v.Uint64())))
 		case 3:
 			eff.SetInt64(int64(int32(v.Int64())))
@@ -222,6 +228,9 @@ func runC17(seed uint64, tier, dir, replay string) error {
 			return 7
 		}
 		if v.Sign() >= 0 && v.BitLen() <= 32 && rng.Intn(3) == 0 {
+			if rng.Intn(3) == 0 {
+				return 9 // a named integer type
+			}
 			return 2
 		}
 		if v.BitLen() <= 31 && rng.Intn(4) == 0 {
@@ -335,6 +344,6 @@ func runC17(seed uint64, tier, dir, replay string) error {
 	if len(direct) > 0 {
 		o.Meta["direct_violations"] = direct
 	}
-	o.Meta["rule"] = "NXM_NX_REG0..15: the 528 windows (all of them per register in the thorough tier, a rotating quarter in the quick tier) with boundary/random values spanning the window, compared with NewRegMatchField's bytes; every registered field: exact form, 1/2/3-argument forms at random windows inside the field (48/64/128-bit and longer fields sampled), in-place form; unrepresentable inputs (value wider than window / field, window beyond field, negative data of every signed type and *big.Int, a nil *big.Int, negative window, >3 arguments, in-place data outside its mask); data passed as uint16/uint32/int32/uint64/int64/*big.Int/[]byte/net.HardwareAddr, mask arguments as int/uint16/int64/uint32; *big.Int and byte-slice arguments compared before/after; distinct by field x form x data type x outcome"
+	o.Meta["rule"] = "NXM_NX_REG0..15: the 528 windows (all of them per register in the thorough tier, a rotating quarter in the quick tier) with boundary/random values spanning the window, compared with NewRegMatchField's bytes; every registered field: exact form, 1/2/3-argument forms at random windows inside the field (48/64/128-bit and longer fields sampled), in-place form; unrepresentable inputs (value wider than window / field, window beyond field, negative data of every signed type and *big.Int, a nil *big.Int, negative window, >3 arguments, in-place data outside its mask); data passed as uint16/uint32/a named uint32 type/int32/uint64/int64/*big.Int/[]byte/net.HardwareAddr, mask arguments as int/uint16/int64/uint32; *big.Int and byte-slice arguments compared before/after; distinct by field x form x data type x outcome"
 	return o.Close()
 }
